@@ -484,6 +484,19 @@ def weave_fn(text, w, rules, vacuity=False, name='?'):
                 raise ExtractError('lost anchor: closure#%d in fn %s (found %d)' % (k, name, len(cl)))
             a, b = cl[k - 1]
             repl.append((a, b, hdr.strip()))
+            # a contracted closure needs a block body: wrap an expression body in braces
+            q = skip_ws(code, b)
+            if code[q] != '{':
+                e = q
+                while e < body_close:
+                    if code[e] in OPEN:
+                        e = match_close(code, e) + 1
+                        continue
+                    if code[e] in ',)':
+                        break
+                    e += 1
+                repl.append((q, q, '{ '))
+                repl.append((e, e, ' }'))
     loops = None
     for where, t in w.at:
         t = t.rstrip('\n') + '\n'
